@@ -89,9 +89,9 @@ class Tok(Part):
         return None
 
 
-def render_identity(source):
+def render_identity(source, **cfg):
     from chameleon import PageTemplate
-    o = run(PageTemplate, source)
+    o = run(PageTemplate, source, **cfg)
     if not o.ok:
         return "compile", o
     t = o.value
@@ -162,6 +162,20 @@ class Ident(Part):
             return Mismatch("ident:differs", {
                 "source": src, "got": o.value, "expected": exp,
                 "where": _first_diff(o.value, exp)})
+        if "<!--" in src:
+            # with comment interpolation switched off every comment is
+            # inert - also one that opens with the "?" marker, which is
+            # then not template syntax (only "<!--!" comments are dropped)
+            src2 = src.replace("<!--", "<!--?", 1) \
+                if len(src) % 2 else src
+            stage, o = render_identity(
+                src2, enable_comment_interpolation=False)
+            exp2 = expected_identity(src2)
+            if not o.ok or o.value != exp2:
+                return Mismatch(
+                    "ident:comment not verbatim with comment interpolation "
+                    "off", {"source": src2, "expected": exp2,
+                            "got": o.value if o.ok else o.brief()})
         return None
 
 
